@@ -128,7 +128,7 @@ def run(prop: str, tier: str, seed: int, replay: str | None, scratch: str) -> in
     if os.environ.get("VERIF_NO_TRANSCRIPT_TIE") != "1":
         try:
             from translate import carried
-            cs = carried.check(prop)
+            cs = carried.check(prop, write=True)          # also regenerates Gen/Carried.lean
             if cs:
                 ctx.gen_status["CarriedState"] = cs
         except Exception as e:  # noqa: BLE001
@@ -175,6 +175,25 @@ def run(prop: str, tier: str, seed: int, replay: str | None, scratch: str) -> in
                 broken.append(f"{n}: axioms {a['axioms']}")
             else:
                 ctx.discharged.append(n)
+        # the premise of every hand model — an entry point is a function of its inputs — as a Lean obligation over the
+        # regenerated list of carried state that is not on record (Props/StateCarry.lean)
+        if "CarriedState" in ctx.gen_status:
+            sc_names = ["TopSearch.Props.StateCarry." + n for n in
+                        ("no_unrecorded_carried_state", "call_independent_of_history", "calls_like_fresh")]
+            ctx.obligations = list(ctx.obligations) + sc_names
+            sc_ok, sc_log = common.lake_build(["TopSearch.Props.StateCarry"])
+            if not sc_ok:
+                broken.append("TopSearch.Props.StateCarry.no_unrecorded_carried_state no longer checks: the current source "
+                              "carries state between calls that is not on record (Gen/Carried.lean)")
+            else:
+                au2 = common.audit(prop + "State", "TopSearch.Props.StateCarry", sc_names)
+                for n in sc_names:
+                    a = au2.get(n)
+                    if a is None or a["kind"] != "theorem" or not set(a["axioms"]) <= ALLOWED_AXIOMS:
+                        broken.append(f"{n}: not a checked theorem ({a})")
+                    else:
+                        ctx.discharged.append(n)
+                        ctx.audit[n] = a
         if tier == "thorough":
             # independent re-check of the compiled property module by the toolchain's separate checker
             import subprocess
